@@ -6,7 +6,10 @@ TITLE = "SMTP transactions are well-sequenced, isolated from each other and atom
 LEVEL_TEXT = ("Coq theorems over the SMTP session model for every configuration and every input sequence (item level and byte level): "
               "sequencing (MAIL needs a greeting, RCPT an open transaction, DATA an accepted recipient), envelope reset on "
               "RSET/EHLO/end of DATA, exactly one well-formed reply group per line, no reachable panic, progress; the cut theorem over byte streams (cut_prefix: the deliveries of every byte "
-              "prefix are a prefix of the deliveries of the whole stream; cut_store_is_entitled; truncated_is_none); tied to the code by byte-level correspondence of random/garbage "
+              "prefix are a prefix of the deliveries of the whole stream; cut_trace_prefix / cut_delivers_exactly_the_shared_part: the transcript of the cut connection is a part shared "
+              "with the whole stream's transcript followed by a tail that delivers nothing - both bounds; cut_store_is_entitled; truncated_is_none); when the server's writes fail "
+              "(write_failure_at_most_one_unseen_block): of the iterations that ran all but the last had every reply line delivered to the client, so at most one "
+              "message is stored without the client having seen its 250; tied to the code by byte-level correspondence of random/garbage "
               "dialogues and of valid dialogues cut after every byte, with the sequencing/reply-shape specifications and the C01 "
               "entitlement evaluated on the implementation's answers as oracles; the connection itself is in the model (Proofs/SmtpNet.v): "
               "bytes arriving in chunks separated by pauses longer than the idle timeout, ended by EOF, silence or a read error - for EVERY "
